@@ -17,7 +17,8 @@ NAME = "C10"
 PROPERTY = "C10"
 LEVEL = "fault_enumeration"
 EVALS_FROM_COUNTER = True
-RULE = ("one evaluation = one execution of a CLI task with one fault plan (fault kind at fault point k; "
+RULE = ("one evaluation = one execution of a CLI task with one fault plan (fault kind - I/O error before/after the call, process "
+        "kill before/after it, KeyboardInterrupt instead of it - at fault point k; "
         "fault points = every outermost h5py Dataset/Group/Attribute/File mutating call, h5o.copy, file open/close, "
         "pathlib/os rename/unlink/mkdir of the task, numbered in execution order); thorough also crash->restart->crash "
         "sequences.  distinct_nontrivial = distinct (task, fault kind, fault-point label class) triples whose fault "
@@ -299,6 +300,9 @@ def select_plans(labels, tier, r, task=None):
         for k in ks:
             for kind in KINDS:
                 plans.append([{"at": k, "kind": kind}])
+        for k in ks[::max(1, len(ks) // 80)]:
+            plans.append([{"at": k, "kind": "intr_before"}])
+            plans.append([{"at": k, "kind": "intr_before"}, {"at": -1, "kind": "none"}])
         # crash -> restart -> crash sequences
         for _ in range(min(40, n)):
             seq = [{"at": r.randrange(n), "kind": r.choice(["kill_before", "kill_after"])},
@@ -331,6 +335,10 @@ def select_plans(labels, tier, r, task=None):
         plans.append([{"at": k, "kind": "err_before"}])
     for k in r.sample(range(n), min(max(2, cap // 10), n)):
         plans.append([{"at": k, "kind": "err_after"}])
+    for k in r.sample(range(n), min(max(2, cap // 12), n)):
+        # the user interrupts the task (KeyboardInterrupt is not an Exception: clean-up code written with
+        # `except Exception` does not run)
+        plans.append([{"at": k, "kind": "intr_before"}])
     for _ in range(2):
         plans.append([{"at": r.randrange(n), "kind": "kill_before"}, {"at": r.randrange(n), "kind": r.choice(KINDS)}])
     # a failed or killed run followed by a fault-free restart of the same task (stale temporary files of the first run)
@@ -498,7 +506,7 @@ def run(trace, ctx):
                               f"{task}: unexpected file '{name}' after {kind} at point {k} ({lab})",
                               sig=sig, trace=vtrace)
             # (4) a swallowed error must not change the result
-            if outcome == "completed" and kind.startswith("err") and fired:
+            if outcome == "completed" and kind.startswith(("err", "intr")) and fired:
                 for rel in outputs:
                     p = wl.work / rel
                     if not p.exists() or h5digest.h5_digest(p) != ref_digest[rel]:
